@@ -18,7 +18,7 @@ PoolCore == {
   E("63", "posint", Lit(N(63)), {}), E("64", "posint", Lit(N(64)), {}),
   E("2p53", "big", Lit(D("9007199254740992")), {}), E("2p63", "huge", Lit(D("9223372036854775808")), {}),
   E("1e308", "huge", Lit(D("1e308")), {}), E("inf", "inf", InfE, {}), E("nan", "nan", Bin("-", InfE, InfE), {}),
-  E("s_empty", "str-empty", Lit(S("")), {}), E("s_a", "str-alpha", Lit(S("a")), {}), E("s_12", "str-numeric", Lit(S("12")), {}),
+  E("s_empty", "str-empty", Lit(S("")), {}), E("s_a", "str-alpha", Lit(S("a")), {}), E("s_12", "str-numeric", Lit(S("12")), {}), E("s_0", "str-numeric", Lit(S("0")), {}),
   E("wide", "wide", Bin("|", Bin("<<", Lit(N(1)), Lit(N(53))), Lit(N(1))), {}),   \* an int64 no double holds: 2^53 + 1
   E("arrA", "arr", Id("A"), {1}), E("arrB", "arr", Id("B"), {2}), E("objO", "obj", Id("O"), {3}),
   E("fn", "fn", Id("f"), {5}), E("nat", "nat", Id("len"), {}) }
